@@ -252,6 +252,7 @@ MUTANTS: Dict[str, List[M]] = {
         ("link target stays required", "_link_arguments.py", "        if target in parser.required_args:\n            parser.required_args.remove(target)", "        if target in parser.required_args and compute_fn is None:\n            parser.required_args.remove(target)", "C15.b"),
     ],
     "C16": [
+        ("cycle check after the parser was modified again (F65)", "_link_arguments.py", "        # Initialize link action\n", "        if apply_on == \"instantiate\":\n            self.instantiation_order(parser)\n\n        # Initialize link action\n", "C16.g"),
         ("recursion into visited nodes", "_link_arguments.py", "            elif not visited[target]:", "            else:", "C16.c"),
         ("post-order append instead of prepend", "_link_arguments.py", "        order.insert(0, source)", "        order.append(source)", "C16.c"),
         ("edge direction reversed", "_link_arguments.py", "                    graph.add_edge(source_action.dest, target)", "                    graph.add_edge(target, source_action.dest)", "C16.a"),
